@@ -225,6 +225,14 @@ func (lc *lockCtx) entryState(f *ssa.Function, obj string, m *types.Var, depth i
 							}
 						}
 					case *ssa.Call:
+						// handed to a library function that is not known to call it before it returns (time.AfterFunc,
+						// a callback registration): it runs later, on another goroutine, with nothing held
+						if u.Common().Value != ssa.Value(mc) {
+							sc := u.Common().StaticCallee()
+							if sc == nil || ((sc.Pkg == nil || !strings.HasPrefix(sc.Pkg.Pkg.Path(), modPath)) && !syncHigherOrder[sc.String()]) {
+								return lkNone
+							}
+						}
 						known = true
 						s := lc.stateAt(par, u, obj, m, depth+1)
 						// passed to a repo function that calls it: the lock may be taken by that function around the call
@@ -536,6 +544,7 @@ func checkC19(p *Prog, res *Result, tier string) {
 	res.rule("C19-R3", "skip-list / list elements are dereferenced only under the owning lock", 4)
 	res.rule("C19-R6", "event batches shared between subscriber goroutines are not written by any of them (C05-R8)", 2)
 	res.rule("C19-R5", "no self-deadlock: a mutex is never (re)acquired exclusively on a path on which the same goroutine already holds it, directly or through a called repo function", 1)
+	res.rule("C19-R7", "no append onto a slice that belongs to a shared object (a field of a long-lived struct, a package variable) unless the result is stored back into that same place: with spare capacity the append writes into the shared array from whichever goroutine runs it", 10)
 	res.rule("C19-R4", "post-construction writes to fields of mutex-less types are atomic or confined (frozen table)", 5)
 
 	lc := p.lockContext()
@@ -730,6 +739,7 @@ func checkC19(p *Prog, res *Result, tier string) {
 	checkUnguardedTypes(p, res, inOwner)
 	// ---- R5: self-deadlock ----
 	checkSelfDeadlock(p, p.lockContext(), res, "C19-R5")
+	checkSharedAppend(p, res, "C19-R7")
 
 	// ---- R6: shared batches are read-only (C05-R8) ----
 	{
@@ -1516,4 +1526,89 @@ func checkSelfDeadlock(p *Prog, lc *lockCtx, res *Result, rule string) {
 	if violations == 0 {
 		res.ok(rule, "no lock acquired while held", "-", fmt.Sprintf("%d lock acquisitions examined (in place and across one call)", n))
 	}
+}
+
+// checkSharedAppend (C19-R7): x := append(obj.f, v) where obj is not a local object and x does not go back into obj.f.
+func checkSharedAppend(p *Prog, res *Result, rule string) {
+	n := 0
+	for _, f := range p.AllFuncs {
+		if f.Synthetic != "" || f.Pkg == nil || !strings.HasPrefix(f.Pkg.Pkg.Path(), modPath) {
+			continue
+		}
+		k := 0
+		for _, c := range callsIn(f) {
+			call, ok := c.(*ssa.Call)
+			if !ok {
+				continue
+			}
+			bi, ok := call.Common().Value.(*ssa.Builtin)
+			if !ok || bi.Name() != "append" || len(call.Common().Args) == 0 {
+				continue
+			}
+			base := resolve(call.Common().Args[0])
+			ld, ok := base.(*ssa.UnOp)
+			if !ok || ld.Op != token.MUL {
+				continue
+			}
+			var place string
+			switch a := ld.X.(type) {
+			case *ssa.FieldAddr:
+				if isFreshObject(a.X) {
+					continue
+				}
+				place = "field " + fieldOf(a).Name()
+			case *ssa.Global:
+				place = "package variable " + a.Name()
+			default:
+				continue
+			}
+			n++
+			k++
+			top := f
+			for top.Parent() != nil {
+				top = top.Parent()
+			}
+			construct := fmt.Sprintf("%s: append onto shared %s #%d", funcName(top), place, k)
+			// stored back into the very place it was loaded from?
+			back := false
+			var follow func(v ssa.Value, d int)
+			follow = func(v ssa.Value, d int) {
+				if d > 3 || v.Referrers() == nil {
+					return
+				}
+				for _, ref := range *v.Referrers() {
+					switch x := ref.(type) {
+					case *ssa.Store:
+						if x.Val == v && samePlace(x.Addr, ld.X) {
+							back = true
+						}
+					case *ssa.Phi:
+						follow(x, d+1)
+					}
+				}
+			}
+			follow(call, 0)
+			if back {
+				res.ok(rule, construct, p.pos(call.Pos()), "the result is stored back into the same place (judged by the lock rules of that field)")
+			} else {
+				res.bad(rule, construct, p.pos(call.Pos()), "the result of the append is used elsewhere while the base slice stays in the shared object: when that slice has spare capacity every call writes the appended element into the shared backing array, concurrently with other requests doing the same (and with readers of the array)")
+			}
+		}
+	}
+	if n == 0 {
+		res.und(rule, "appends onto shared slices", "-", "no append with a field or package variable as base found")
+	}
+}
+
+// samePlace: two addresses denote the same field of the same object value / the same package variable.
+func samePlace(a, b ssa.Value) bool {
+	if a == b {
+		return true
+	}
+	fa, ok1 := a.(*ssa.FieldAddr)
+	fb, ok2 := b.(*ssa.FieldAddr)
+	if ok1 && ok2 {
+		return fieldOf(fa) == fieldOf(fb) && (resolve(fa.X) == resolve(fb.X) || accessPath(fa.X) == accessPath(fb.X))
+	}
+	return false
 }
